@@ -212,7 +212,147 @@ fn do_poll(comb: &mut dyn FnMut(&mut Context<'_>) -> String, w: usize) -> String
     o
 }
 
+/// directed profile `waves`: a block of "slow" children that pend the same number of times and are
+/// woken together, so that many children resolve in the same poll (boundary sizes 22/23, 63/64/65,
+/// 128/129, 200; slow block of boundary length at the front, the back or spread out); the others
+/// are ready at once.
+fn run_waves(rng: &mut Rng, fam: &str, id: &str) {
+    reset();
+    let (child_kind, is_stream) = match fam {
+        "join" => (ChildKind::Fut, false),
+        "try_join" | "race_ok" => (ChildKind::Res, false),
+        "merge" | "zip" => (ChildKind::Stream, true),
+        _ => (ChildKind::Fut, false),
+    };
+    let mut kinds = vec![Kind::Arr, Kind::Tup];
+    if HAS_ALLOC {
+        kinds.push(Kind::Vec);
+        kinds.push(Kind::Vec);
+    }
+    let kind = *rng.pick(&kinds);
+    // half of the cases: a slow block of boundary length inside a container that is at most two
+    // children longer (the inline-state, bit-block and poll-budget style boundaries)
+    let (n, k) = if kind == Kind::Vec && rng.chance(50) {
+        let k = *rng.pick(&[22usize, 23, 63, 64, 65, 128]);
+        let n = k + *rng.pick(&[0usize, 1, 1, 2, 3]);
+        (n, k)
+    } else {
+        let n = match kind {
+            Kind::Vec => *rng.pick(&[2usize, 3, 5, 8, 22, 23, 24, 63, 64, 65, 66, 127, 128, 129, 130, 200]),
+            Kind::Arr => *rng.pick(&[2usize, 3, 5, 8, 22, 23, 64, 65, 200]),
+            _ => 2 + rng.below(11),
+        };
+        let cands: Vec<usize> = [1usize, 2, n.saturating_sub(1), n, 21, 22, 23, 62, 63, 64, 65, 66, 128]
+            .iter()
+            .cloned()
+            .filter(|k| *k >= 1 && *k <= n)
+            .collect();
+        let k = *rng.pick(&cands);
+        (n, k)
+    };
+    let slow: Vec<usize> = match rng.below(3) {
+        0 => (0..k).collect(),
+        1 => (n - k..n).collect(),
+        _ => {
+            let mut all: Vec<usize> = (0..n).collect();
+            for i in 0..n {
+                let j = i + rng.below(n - i);
+                all.swap(i, j);
+            }
+            let mut v = all[..k].to_vec();
+            v.sort();
+            v
+        }
+    };
+    let m = 1 + rng.below(2);
+    let err_child: Option<usize> = if child_kind == ChildKind::Res && rng.chance(25) { Some(rng.below(n)) } else { None };
+    let model_fam = match (fam, kind) {
+        ("join", Kind::Vec | Kind::Arr) => "joinSlice",
+        ("join", _) => "joinTuple",
+        ("try_join", Kind::Vec | Kind::Arr) => "tryJoinSlice",
+        ("try_join", _) => "tryJoinTuple",
+        ("race_ok", Kind::Arr) => "raceOkArr",
+        ("race_ok", Kind::Vec) => "raceOkVec",
+        ("race_ok", _) => "raceOkTup",
+        ("merge", _) => "merge",
+        ("zip", _) => "zip",
+        _ => panic!("waves: unsupported family {fam}"),
+    };
+    let mut scripts: Vec<Vec<Step>> = vec![];
+    for c in 0..n {
+        let mut st = vec![];
+        if slow.contains(&c) {
+            for _ in 0..m {
+                st.push(Step { res: Res::Pend, fires: vec![] });
+            }
+        }
+        match child_kind {
+            ChildKind::Fut => st.push(Step { res: Res::Ready(true, c * 100 + 1), fires: vec![] }),
+            ChildKind::Res => {
+                let ok = if fam == "race_ok" { Some(c) == err_child } else { Some(c) != err_child };
+                st.push(Step { res: Res::Ready(ok, c * 100 + 1), fires: vec![] })
+            }
+            ChildKind::Stream => {
+                st.push(Step { res: Res::Item(c * 100 + 1), fires: vec![] });
+                if slow.contains(&c) && m > 1 {
+                    st.push(Step { res: Res::Pend, fires: vec![] });
+                }
+                st.push(Step { res: Res::Item(c * 100 + 2), fires: vec![] });
+                st.push(Step { res: Res::Fin, fires: vec![] });
+            }
+        }
+        scripts.push(st);
+    }
+    for (c, s) in scripts.iter().enumerate() {
+        let id = add_child(s.clone(), c);
+        assert_eq!(id, c);
+    }
+    let mode = if fam == "race_ok" { "direct" } else { MODE };
+    let mut block = Block {
+        header: format!("CASE {id} {model_fam} {mode} 0 {n} {}", kind.name()),
+        scripts: scripts.iter().cloned().enumerate().collect(),
+        ops: vec![],
+    };
+    let mut comb: Option<Box<dyn Comb>> = Some(match fam {
+        "join" => build_join(kind, n),
+        "try_join" => build_try_join(kind, n),
+        "race_ok" => build_race_ok(kind, n),
+        "merge" => build_merge(kind, n),
+        "zip" => build_zip(kind, n),
+        _ => unreachable!(),
+    });
+    let mut finished = false;
+    let mut w = 0usize;
+    let rounds = if is_stream { 3 * m + 4 + if fam == "merge" { 2 * n.min(12) } else { 0 } } else { m + 2 };
+    for round in 0..rounds {
+        if finished {
+            break;
+        }
+        if round > 0 {
+            for c in &slow {
+                block.ops.push(format!("f {c} 0"));
+                fire(*c, 0);
+            }
+        }
+        w += 1;
+        block.ops.push(format!("p {w}"));
+        let c = comb.as_mut().unwrap();
+        let o = do_poll(&mut |cx| c.poll(cx), w);
+        finished = final_outcome(&o, is_stream);
+    }
+    block.ops.push("d".into());
+    log("db".into());
+    drop(comb.take());
+    log("de".into());
+    let trace = CTX.with(|c| std::mem::take(&mut c.borrow_mut().log));
+    block.print(&trace);
+    reset();
+}
+
 fn run_fixed(rng: &mut Rng, fam: &str, id: &str, prof: &Profile) {
+    if prof.is("waves") {
+        return run_waves(rng, fam, id);
+    }
     reset();
     // container kind
     let mut kinds: Vec<Kind> = match fam {
